@@ -294,7 +294,7 @@ def c09_family():
               ((2, 2, 2), (3, 2, 2)), ((3, 2, 2), (2, 2, 2)), ((3, 3, 2), (4, 3, 2)), ((1, 1, 2), (2, 1, 66)), ((2, 2, 66), (1, 2, 2)), ((1, 2, 2), (2, 1, 2))]
     for a, b in resets:
         for side in ("enc", "dec"):
-            out.append(dict(mod="gen::c09g", name=f"default_reset_{side}_{'_'.join(map(str, a))}_to_{'_'.join(map(str, b))}", unwind=20,
+            out.append(dict(mod="gen::c09g", name=f"default_reset_{side}_{'_'.join(map(str, a))}_to_{'_'.join(map(str, b))}", unwind=10,
                             body=f"crate::c09::default_reset_{side}({a[0]}, {a[1]}, {a[2]}, {b[0]}, {b[1]}, {b[2]})", kind="reset", side=side, a=a, b=b,
                             cross=rule(a[0], a[1]) != rule(b[0], b[1])))
     for k, r in ((2, 2), (3, 2), (2, 3), (4, 3), (3, 4)):
@@ -387,19 +387,34 @@ def c05_family():
             out.append(dict(mod="gen::c05g", name=f"enc_round_drop_round_{rate}_{k}_{r}_p{p}", unwind=66,
                             body=f"crate::c05::enc_round_drop_round::<{ENC_TY[rate]}<{S}>>({k}, {r}, {p}, {G})",
                             kind="enc_rdr", rate=rate, k=k, r=r, p=p))
-    dec_b = [("high", 3, 2, 0b100, 0b11, 0b001, 0b11), ("low", 2, 3, 0b00, 0b101, 0b01, 0b100), ("high", 2, 2, 0b00, 0b11, 0b10, 0b01)]
+    dec_b = [("high", 3, 2, 0b100, 0b11, 0b001, 0b11), ("low", 2, 3, 0b00, 0b101, 0b01, 0b100), ("high", 2, 2, 0b00, 0b11, 0b10, 0b01),
+             # patterns with a MISSING recovery shard (its stale slot must be zeroed by decode)
+             ("high", 3, 2, 0b011, 0b10, 0b001, 0b11), ("high", 2, 2, 0b01, 0b10, 0b00, 0b11), ("low", 2, 3, 0b01, 0b010, 0b00, 0b101)]
     for rate, k, r, om, rm, om1, rm1 in dec_b:
         G = f"&crate::gen::gmat::G_{rate.upper()}_{k}_{r}"
         for ar, ak, arr, asb in a_cfgs[rate]:
             conv = f"crate::c17::{ar}_id_dec" if ar == rate else f"crate::c17::{ar}_to_{rate}_dec"
             for p in range(k):
-                out.append(dict(mod="gen::c05g", name=f"dec_after_reset_{ar}_{ak}_{arr}_{asb}_to_{rate}_{k}_{r}_p{p}", unwind=66, stub=(rate == "low"),
+                out.append(dict(mod="gen::c05g", name=f"dec_after_reset_{ar}_{ak}_{arr}_{asb}_to_{rate}_{k}_{r}_o{om}_r{rm}_p{p}", unwind=66, stub=(rate == "low"),
                                 body=f"crate::c05::dec_after_reset::<{DEC_TY[ar]}<{S}>, {DEC_TY[rate]}<{S}>, {k}, {r}>(({ak}, {arr}, {asb}), {om}, {rm}, {p}, {G}, {conv})",
                                 kind="dec_after_reset", rate=rate, k=k, r=r, a=(ar, ak, arr, asb), p=p, om=om, rm=rm, cross=(ar != rate)))
         for p in range(k):
-            out.append(dict(mod="gen::c05g", name=f"dec_round_drop_round_{rate}_{k}_{r}_p{p}", unwind=66, stub=(rate == "low"),
+            out.append(dict(mod="gen::c05g", name=f"dec_round_drop_round_{rate}_{k}_{r}_o{om}_r{rm}_p{p}", unwind=66, stub=(rate == "low"),
                             body=f"crate::c05::dec_round_drop_round::<{DEC_TY[rate]}<{S}>, {k}, {r}>({om1}, {rm1}, {om}, {rm}, {p}, {G})",
                             kind="dec_rdr", rate=rate, k=k, r=r, p=p, om=om, rm=rm))
+    # state after adds + reset / hand-over == fresh state (N engine; cheap)
+    st = [("high", 3, 2, 2, 0b001, 0b01, "high", 5, 3, 2), ("high", 2, 2, 2, 0b01, 0b10, "high", 3, 2, 2), ("high", 3, 2, 66, 0b100, 0b11, "low", 2, 3, 2),
+          ("low", 2, 3, 2, 0b01, 0b100, "low", 3, 5, 2), ("low", 2, 2, 2, 0b10, 0b01, "high", 3, 2, 66), ("low", 1, 2, 2, 0b1, 0b10, "low", 2, 3, 130),
+          ("high", 5, 3, 2, 0b10000, 0b100, "high", 2, 1, 2), ("low", 3, 5, 2, 0b100, 0b10000, "high", 2, 2, 2)]
+    for ar, ak, arr, asb, om, rm, br, bk, brr, bsb in st:
+        conv_d = f"crate::c17::{ar}_id_dec" if ar == br else f"crate::c17::{ar}_to_{br}_dec"
+        conv_e = f"crate::c17::{ar}_id_enc" if ar == br else f"crate::c17::{ar}_to_{br}_enc"
+        out.append(dict(mod="gen::c05g", name=f"dec_reset_state_{ar}_{ak}_{arr}_{asb}_to_{br}_{bk}_{brr}_{bsb}", unwind=40,
+                        body=f"crate::c05::dec_reset_state::<{DEC_TY[ar]}<N>, {DEC_TY[br]}<N>>(({ak}, {arr}, {asb}), {om}, {rm}, {bk}, {brr}, {bsb}, {conv_d})",
+                        kind="dec_reset_state", rate=br, a=(ar, ak, arr, asb), b=(bk, brr, bsb), cross=(ar != br), full=True))
+        out.append(dict(mod="gen::c05g", name=f"enc_reset_state_{ar}_{ak}_{arr}_{asb}_to_{br}_{bk}_{brr}_{bsb}", unwind=40,
+                        body=f"crate::c05::enc_reset_state::<{ENC_TY[ar]}<N>, {ENC_TY[br]}<N>>(({ak}, {arr}, {asb}), {min(ak, 2)}, {bk}, {brr}, {bsb}, {conv_e})",
+                        kind="enc_reset_state", rate=br, a=(ar, ak, arr, asb), b=(bk, brr, bsb), cross=(ar != br), full=True))
     return out
 
 
